@@ -4,6 +4,7 @@ import AscentVerif.Model.StdInterp
 import AscentVerif.Model.Hir
 import AscentVerif.Model.EnginePhys
 import AscentVerif.Model.EnginePhysPar
+import AscentVerif.Model.EnginePhysTimeout
 import AscentVerif.Proofs.PlanSwapBody
 namespace AscentVerif.Driver
 open AscentVerif AscentVerif.Std AscentVerif.Engine
@@ -207,6 +208,20 @@ def doRunPhys (s : EngStore) (inst : String) : Option (EngStore × String) := do
         some ({ s with insts := (inst, { i with st := st, iters := ps.iters }) :: s.insts.filter (·.1 != inst) }, "ok")
       | none => some (s, "nofuel")
 
+/-- `run_timeout` through the physical-index engine model: the `k`-th clock reading finds the deadline passed -/
+def doRunPhysTimeout (s : EngStore) (inst : String) (k : Nat) : Option (EngStore × String) := do
+    let i ← (s.insts.find? (·.1 == inst)).map (·.2)
+    let p := i.pd.prog
+    if p.rels.any (·.lat) || p.rules.any (fun r => r.body.any fun | .agg _ => true | _ => false) then some (s, "na")
+    else
+      let ix := Phys.ixSetsOf stdVars p
+      let s0 : Phys.PSt := (List.range i.st.length).map fun r => { rows := (relSt i.st r).rows, full := [], idxs := [] }
+      let back (ps : Phys.ProgStT) : Inst := { i with st := ps.st.map fun pr => { rows := pr.rows, idx := [] }, iters := ps.iters }
+      match Phys.runTimeout (interp (kindOf i.pd)) stdVars p ix i.pd.order (fun c => c == k) defaultFuel s0 with
+      | .done ps => some ({ s with insts := (inst, back ps) :: s.insts.filter (·.1 != inst) }, "true")
+      | .timedOut ps => some ({ s with insts := (inst, back ps) :: s.insts.filter (·.1 != inst) }, "false")
+      | .outOfFuel => some (s, "nofuel")
+
 /-- a concrete schedule: odd-numbered steps run in reverse order, worker `n % 7` performs the `n`-th insert, every third
 comparison of sampled `len_estimate`s picks the swapped copy -/
 def demoSched (seed : Nat) : PhysPar.Sched Ex Bx Gx Px Ax where
@@ -272,6 +287,7 @@ def handleEng (s : EngStore) : List Sexp → Option (EngStore × String)
       some ({ s with insts := (inst, i') :: s.insts.filter (·.1 != inst) }, "ok")
     else if op == "runin" then doRun s inst
     else if op == "runpp" then do doRunPhysPar s inst (← r.asNat?)
+    else if op == "runtop" then do doRunPhysTimeout s inst (← r.asNat?)
     else if op == "runto" then do
       let i ← (s.insts.find? (·.1 == inst)).map (·.2)
       let k ← r.asNat?
